@@ -47,7 +47,9 @@ Ltac head_step :=
   | |- (let x := _ in _) = _ => cbv zeta
   | |- match ?x with _ => _ end = _ => destruct x eqn:?
   end.
-Ltac walk := repeat (try reflexivity; head_step).
+(* every conversion attempt is bounded: on a changed source the proof must fail, not search *)
+Ltac bounded_refl := timeout 30 reflexivity.
+Ltac walk := repeat (try bounded_refl; head_step).
 
 Theorem validate_config_bridge X c : GC.validateConfig X c = validate_config X c.
 Proof.
@@ -58,11 +60,11 @@ Proof.
   destruct (Config_S3CloudStorage c) as [s3|] eqn:Es3, (Config_HTTPBackend c) as [hb|] eqn:Ehb,
     (Config_GoogleCloudStorage c) as [gcs|] eqn:Egcs, (Config_AzBlobConfig c) as [az|] eqn:Eaz,
     (Config_GRPCBackend c) as [gb|] eqn:Egb.
-  all: do 4 (try reflexivity; head_step).
-  all: try reflexivity.
+  all: do 4 (try bounded_refl; head_step).
+  all: try bounded_refl.
   all: cbv zeta.
   all: match goal with |- (if ?b then _ else _) = _ => let v := eval vm_compute in b in change b with v end; cbv iota.
-  all: try reflexivity.
+  all: try bounded_refl.
   all: walk.
 Qed.
 
